@@ -2,6 +2,7 @@ import Pds.Proofs.TDigestSize
 import Pds.Proofs.TDigestScaleReal
 import Pds.Proofs.TDigestScaleLog
 import Pds.Proofs.TDigestWidth
+import Pds.Proofs.TDigestRank2
 import Mathlib.Algebra.Order.Field.Rat
 import Mathlib.Tactic.NormNum
 /-!
@@ -597,5 +598,112 @@ example {δ c : ℝ} {n : Nat} (hx : scaleX δ c n = 1) :
   have e0 : (1 : ℝ) * Real.log (0 / (1 - 0)) + 1 = 1 := by simp
   rw [e0, div_one, sub_zero, lt_div_iff₀ (by linarith)]
   linarith
+
+
+/-! ### rank accuracy of `quantile` and `cdf`
+
+The accuracy clause of C04 in full: *for every history of unit-weight inserts, every `q`: the
+fraction of inserted values `≤ quantile(q)` differs from `q` by at most a small multiple of the
+maximal cluster width `W` plus `2/n`; `cdf` likewise*.  For histories with several compression passes
+this is **not** a theorem of the algorithm (centroids formed in different passes overlap in value
+range; adversarial insertion orders with unbounded rank error are known for the merging t-digest), and
+it is decided by the sampling experiment only.  What is proved:
+
+* `rank_*_one_pass_partial` — the full data-level statement with constant `3/2` for a digest whose
+  data went through **one** compression pass (`n ≤ max_backlog_size`, any scale function, any
+  insertion order, ties allowed): with `wmax` a bound on the centroid weights,
+  `#{x < v} ≤ n·q + 3/2·wmax` and `n·q ≤ #{x ≤ v} + 3/2·wmax` for `v = quantile(q)`, and
+  `#{y < x} − 3/2·wmax ≤ n·cdf(x) ≤ #{y ≤ x} + 3/2·wmax`.  (The rank *interval* `[#{x<v}, #{x≤v}]` is
+  what the statement's "heavy ties … across which interpolation must bridge" refers to.)
+* `rank_*_one_pass_K0`, `…_K1` — the same with `wmax` discharged by the cluster-width theorems:
+  `3/2·max 1 (W·n)`, `W = 2/δ` (any ordered field) and `W = π/δ` (over ℝ).
+* `rank_*_centroids` — for **every** reachable state (any weights, any number of passes, any scale
+  function): `quantile`/`cdf` are `3/2·wmax`-accurate with respect to the centroid summary they read
+  (`wLT`/`wLE` = weight of the centroids with mean `<`/`≤` the argument).  The interpolation layer thus
+  never adds more than `3/2` cluster widths to whatever error the centroids already carry. -/
+
+open Pds.TDigest in
+/-- one pass, `quantile`, any scale function (partial: one compression pass) -/
+theorem rank_quantile_one_pass_partial (sf : ScaleFn α) {mb : Nat} {xs : List α} {s : St α}
+    (h : run sf (new mb) (xs.map (fun x => Op.insert x 1)) = some s) (hne : xs ≠ [])
+    (hmb : xs.length ≤ mb) {wmax : α} (hw : ∀ c ∈ (merge sf s).centroids, c.count ≤ wmax)
+    {q : α} (hq0 : 0 ≤ q) (hq1 : q ≤ 1) :
+    ∃ v, (quantile sf s q).2 = .val v ∧
+      (countLT xs v : α) ≤ (xs.length : α) * q + 3 / 2 * wmax ∧
+      (xs.length : α) * q ≤ (countLE xs v : α) + 3 / 2 * wmax :=
+  quantile_rank_of_run sf h hne hmb hw hq0 hq1
+
+/-- one pass, `cdf`, any scale function (partial: one compression pass) -/
+theorem rank_cdf_one_pass_partial (sf : ScaleFn α) {mb : Nat} {xs : List α} {s : St α}
+    (h : run sf (new mb) (xs.map (fun x => Op.insert x 1)) = some s) (hne : xs ≠ [])
+    (hmb : xs.length ≤ mb) {wmax : α} (hw : ∀ c ∈ (merge sf s).centroids, c.count ≤ wmax) (x : α) :
+    ∃ r, (cdf sf s x).2 = some r ∧
+      (countLT xs x : α) - 3 / 2 * wmax ≤ (xs.length : α) * r ∧
+      (xs.length : α) * r ≤ (countLE xs x : α) + 3 / 2 * wmax :=
+  cdf_rank_of_run sf h hne hmb hw x
+
+/-- one pass with `K0`: as fractions of `n`, `F̂(v−) ≤ q + ε` and `q ≤ F̂(v) + ε` with
+`ε = 3/2·max (1/n) (2/δ)` -/
+theorem rank_quantile_one_pass_K0 {δ : α} (hδ : 0 < δ) {mb : Nat} {xs : List α} {s : St α}
+    (h : run (k0 δ) (new mb) (xs.map (fun x => Op.insert x 1)) = some s) (hne : xs ≠ [])
+    (hmb : xs.length ≤ mb) {q : α} (hq0 : 0 ≤ q) (hq1 : q ≤ 1) :
+    ∃ v, (quantile (k0 δ) s q).2 = .val v ∧
+      (countLT xs v : α) / (xs.length : α) ≤ q + 3 / 2 * max (1 / (xs.length : α)) (2 / δ) ∧
+      q ≤ (countLE xs v : α) / (xs.length : α) + 3 / 2 * max (1 / (xs.length : α)) (2 / δ) :=
+  quantile_rank_K0_frac hδ h hne hmb hq0 hq1
+
+theorem rank_cdf_one_pass_K0 {δ : α} (hδ : 0 < δ) {mb : Nat} {xs : List α} {s : St α}
+    (h : run (k0 δ) (new mb) (xs.map (fun x => Op.insert x 1)) = some s) (hne : xs ≠ [])
+    (hmb : xs.length ≤ mb) (x : α) :
+    ∃ r, (cdf (k0 δ) s x).2 = some r ∧
+      (countLT xs x : α) / (xs.length : α) - 3 / 2 * max (1 / (xs.length : α)) (2 / δ) ≤ r ∧
+      r ≤ (countLE xs x : α) / (xs.length : α) + 3 / 2 * max (1 / (xs.length : α)) (2 / δ) :=
+  cdf_rank_K0_frac hδ h hne hmb x
+
+/-- one pass with `K1` over ℝ: rank error at most `3/2·max 1 (πn/δ)` -/
+theorem rank_quantile_one_pass_K1 {δ : ℝ} (hδ : 0 < δ) {mb : Nat} {xs : List ℝ} {s : St ℝ}
+    (h : run (k1 δ) (new mb) (xs.map (fun x => Op.insert x 1)) = some s) (hne : xs ≠ [])
+    (hmb : xs.length ≤ mb) {q : ℝ} (hq0 : 0 ≤ q) (hq1 : q ≤ 1) :
+    ∃ v, (quantile (k1 δ) s q).2 = .val v ∧
+      (countLT xs v : ℝ) ≤ (xs.length : ℝ) * q + 3 / 2 * max 1 (Real.pi / δ * (xs.length : ℝ)) ∧
+      (xs.length : ℝ) * q ≤ (countLE xs v : ℝ) + 3 / 2 * max 1 (Real.pi / δ * (xs.length : ℝ)) :=
+  quantile_rank_K1 hδ h hne hmb hq0 hq1
+
+theorem rank_cdf_one_pass_K1 {δ : ℝ} (hδ : 0 < δ) {mb : Nat} {xs : List ℝ} {s : St ℝ}
+    (h : run (k1 δ) (new mb) (xs.map (fun x => Op.insert x 1)) = some s) (hne : xs ≠ [])
+    (hmb : xs.length ≤ mb) (x : ℝ) :
+    ∃ r, (cdf (k1 δ) s x).2 = some r ∧
+      (countLT xs x : ℝ) - 3 / 2 * max 1 (Real.pi / δ * (xs.length : ℝ)) ≤ (xs.length : ℝ) * r ∧
+      (xs.length : ℝ) * r ≤ (countLE xs x : ℝ) + 3 / 2 * max 1 (Real.pi / δ * (xs.length : ℝ)) :=
+  cdf_rank_K1 hδ h hne hmb x
+
+/-- every reachable state: `quantile` against the centroid summary -/
+theorem rank_quantile_centroids (sf : ScaleFn α) {mb : Nat} {ops : List (Op α)} {s : St α}
+    (h : run sf (new mb) ops = some s) (hne : (merge sf s).centroids ≠ []) {wmax : α}
+    (hw : ∀ c ∈ (merge sf s).centroids, c.count ≤ wmax) {q : α} (hq0 : 0 ≤ q) (hq1 : q ≤ 1) :
+    ∃ v, (quantile sf s q).2 = .val v ∧
+      wLT (merge sf s).centroids v ≤ sumCount (merge sf s).centroids * q + 3 / 2 * wmax ∧
+      sumCount (merge sf s).centroids * q ≤ wLE (merge sf s).centroids v + 3 / 2 * wmax :=
+  quantile_rank_centroids_of_run sf h hne hw hq0 hq1
+
+/-- every reachable state: `cdf` against the centroid summary -/
+theorem rank_cdf_centroids (sf : ScaleFn α) {mb : Nat} {ops : List (Op α)} {s : St α}
+    (h : run sf (new mb) ops = some s) (hne : (merge sf s).centroids ≠ []) {wmax : α}
+    (hw : ∀ c ∈ (merge sf s).centroids, c.count ≤ wmax) (x : α) :
+    ∃ r, (cdf sf s x).2 = some r ∧
+      wLT (merge sf s).centroids x - 3 / 2 * wmax ≤ sumCount (merge sf s).centroids * r ∧
+      sumCount (merge sf s).centroids * r ≤ wLE (merge sf s).centroids x + 3 / 2 * wmax :=
+  cdf_rank_centroids_of_run sf h hne hw x
+
+/-- non-vacuity: six shuffled values, `K0` with `δ = 4`, backlog 10 — the hypotheses hold, the digest
+has two centroids of weight 3, `quantile(1/2) = 7/2` with `#{x < 7/2} = #{x ≤ 7/2} = 3 = n·q` -/
+example : run (k0 (4 : ℚ)) (new 10) (([3, 1, 6, 2, 5, 4] : List ℚ).map (fun x => Op.insert x 1))
+    = some exBacklog := ex_rank_run
+
+example : ∃ v, (quantile (k0 (4 : ℚ)) exBacklog (1 / 2)).2 = .val v ∧
+    (countLT ([3, 1, 6, 2, 5, 4] : List ℚ) v : ℚ) / (6 : ℕ) ≤ 1 / 2 + 3 / 2 * max (1 / ((6 : ℕ) : ℚ)) (2 / 4) ∧
+    1 / 2 ≤ (countLE ([3, 1, 6, 2, 5, 4] : List ℚ) v : ℚ) / (6 : ℕ) + 3 / 2 * max (1 / ((6 : ℕ) : ℚ)) (2 / 4) :=
+  rank_quantile_one_pass_K0 (by norm_num) ex_rank_run (by simp [exData]) (by simp [exData]) (by norm_num) (by norm_num)
+
 
 end Pds.Props.C04
